@@ -25,6 +25,9 @@ Readings (weakest reasonable):
   * exit status: no error bits, no bit gained; the change bit stays while an entry is reported, the incompatible bit while a
     removal is reported;
   * `name` shadows the patterns of a [suppress_variable] section (documented in the API), not of a [suppress_function];
+  * only sections that give a name, pattern, symbol name or symbol version are subjects; [suppress_variable] sections that a data
+    member of the program satisfies are discarded (libabigail treats data members as variables: such a section also hides type
+    changes, and with them functions);
   * the textual details of other entries may change (sub-type details move to the next entry): only sets and numbers count.
 """
 import os, threading
@@ -89,7 +92,7 @@ def main():
     th.start()
 
     tool = vf.tool("hooks", "abidiff")
-    jobs = [("cases", lambda: S.gen_cases(c, 300 if c.thorough else 36, MaxIfaces=5, MinMuts=2, MaxMuts=3, MutCats='{"breaking", "unlisted"}',
+    jobs = [("cases", lambda: S.gen_cases(c, 150 if c.thorough else 36, MaxIfaces=5, MinMuts=2, MaxMuts=3, MutCats='{"breaking", "unlisted"}',
                                            keep=lambda cs: nchanged(cs) >= 3))]
     for name, fields, odds, ngen, nuse in STRATA:
         jobs.append((name, (lambda name=name, fields=fields, odds=odds, ngen=ngen:
@@ -111,6 +114,7 @@ def main():
             return [("discard", "does-not-compile")]
         env = vf.henv(da)
         ifaces = S.iface_records(case, direction, versioned)
+        members = S.member_names(case)
         changed = [i for i in ifaces if i["ck"] != "same"]
         rng = c.rng.__class__(c.seed * 104729 + idx * 4 + (2 if versioned else 0) + (1 if direction == "ba" else 0))
         rng.shuffle(changed)
@@ -135,7 +139,7 @@ def main():
                         after = S.project(r1.out)
                         gone = sorted(set(n for sn in S.SECS for n in proj[redundant][sn]) - set(n for sn in S.SECS for n in after[sn]))
                         evs.append(("ok", {"e": "HideOne", "case": idx, "sub": sub, "k": k, "stratum": name, "section": s, "target": target["name"],
-                                           "ifaces": changed, "env": {"paths": [a, b], "sonames": ["", ""]}, "redundant": redundant,
+                                           "ifaces": changed, "members": members, "env": {"paths": [a, b], "sonames": ["", ""]}, "redundant": redundant,
                                            "before": proj[redundant], "after": after, "gone": gone, "exit0": r0.exit, "exit1": r1.exit,
                                            "ret": campaign.retof(r0, r1)}))
         return evs
